@@ -55,6 +55,10 @@ def gen_case(rng, tier, idx):
                 s = (tf_s or step) * rng.choice([2, 3])
                 c["kw"]["timeframe"] = f"S{s}" if s % 60 else (f"T{s // 60}" if s % 3600 else f"H{s // 3600}")
     spare = [configs.rand_config(rng, max_period=9, allow_input=False) for _ in range(2)]
+    tfs = [c["kw"]["timeframe"] for c in members if c["kw"].get("timeframe")]
+    if tfs and rng.random() < 0.7:
+        spare[0]["kw"]["timeframe"] = rng.choice(tfs)  # added later onto a member timeframe that already has a manager
+    ha = rng.random() < 0.2
     words = []
     pre = rng.randint(0, n // 2)
     budget = n - pre
@@ -73,7 +77,7 @@ def gen_case(rng, tier, idx):
             words.append({"op": "add", "spare": rng.randint(0, 1), "form": rng.choice(["object", "dict"])})
         else:
             words.append({"op": w, "m": rng.randint(0, 5), "i": rng.choice([-1, -1, -2, -3, -7, 0, 1, 2, "last", "mid", "first_neg"])})
-    return {"standalone": standalone, "tf": tf, "rows": rows, "members": members, "spare": spare, "preload": pre, "program": words}
+    return {"standalone": standalone, "tf": tf, "rows": rows, "members": members, "spare": spare, "preload": pre, "program": words, "ha": ha}
 
 
 def tops(lists):
@@ -91,7 +95,9 @@ def cls_of(c):
 def run_case(case):
     rows, tf = case["rows"], case["tf"]
     kw = {"timeframe": tf} if tf else {}
-    stats = {"modes": {"standalone" if case["standalone"] else "hexital": 1}}
+    if case.get("ha"):
+        kw["candlestick_type"] = "HA"  # maintenance must not disturb the conversion state of the candles either
+    stats = {"modes": {"standalone" if case["standalone"] else "hexital": 1}, "candlestick": {"HA" if case.get("ha") else "none": 1}}
     viol = []
     members = []          # (cfg, name) currently registered, in order
     seen_names = set()
